@@ -5,6 +5,7 @@ import TerwayModel.Driver.VSwitch
 import TerwayModel.Driver.Bandwidth
 import TerwayModel.Driver.Capacity
 import TerwayModel.Driver.Json
+import TerwayModel.Driver.NetConf
 /-
 `drv`: reads one operation per line (`<model>.<op> arg…`), prints one canonical line per input.
 Malformed or unknown lines print `bad-op` — never a default value.
@@ -24,6 +25,7 @@ def dispatch (st : St) (line : String) : St × String :=
     | ["net", op] => (st, (Net.step op args).getD "bad-op")
     | ["bw", op] => (st, (Bandwidth.step op args).getD "bad-op")
     | ["cap", op] => (st, (Capacity.step op args).getD "bad-op")
+    | ["nc", op] => (st, (NetConfD.step op args).getD "bad-op")
     | ["cfg", op] => (st, (JsonD.step op args).getD "bad-op")
     | ["cni", op] => (st, (JsonD.chainStep op args).getD "bad-op")
     | ["tok", op] =>
